@@ -161,7 +161,9 @@ func (i Info) AppendHash(dst []byte, h hash.Hash) []byte {
 			io.WriteString(h, f)
 			/* #nosec */
 			io.WriteString(h, "<")
-			vals, _ := infoForm.Raw(f)
+			// Raw returns the form's own slice: sort a copy.
+			raw, _ := infoForm.Raw(f)
+			vals := append([]string(nil), raw...)
 			sort.Strings(vals)
 			for _, val := range vals {
 				/* #nosec */
